@@ -1168,7 +1168,7 @@ func evalHistory(seed uint64, idx int, u []*ukey, st *stats, evs []event, routeS
 	if panicked {
 		pb = "true"
 	}
-	coq := fmt.Sprintf("(mkCase %s %s %s %s %s %s)", in.msgs(hist), in.msgs(f1), in.msgs(f2), in.world(hd), in.world(fd), pb)
+	coq := fmt.Sprintf("(mkCase (mkGCase %s %s %s %s %s %s))", in.msgs(hist), in.msgs(f1), in.msgs(f2), in.world(hd), in.world(fd), pb)
 
 	nt := tags["op:delete-while-referenced"] || tags["op:match-start-stop-between-flushes"] || tags["op:revert"]
 	var tl []string
@@ -1267,6 +1267,16 @@ func main() {
 			continue
 		}
 		if err := enc.Encode(runCase(*seed, i, u, st)); err != nil {
+			panic(err)
+		}
+	}
+	// the L3 route resolver slice: one case for every three graph cases
+	reflag := probeReflag()
+	for i := 0; i < *n/3; i++ {
+		if *only >= 0 {
+			break
+		}
+		if err := enc.Encode(l3Case(*seed, i, reflag)); err != nil {
 			panic(err)
 		}
 	}
